@@ -153,7 +153,8 @@ template<multi::dimensionality_type D> std::vector<T> pack_view(VS<D> const& s, 
 		if(pos % static_cast<int>(sizeof(T)) != 0) internal("packed size is not a multiple of the element size");
 		out.resize(static_cast<std::size_t>(pos) / sizeof(T));
 		if(pos > 0) std::memcpy(out.data(), buf.data(), static_cast<std::size_t>(pos));
-		if(head) *head = "msg buf " + std::to_string(static_cast<long>(static_cast<T const*>(msg.buffer()) - g_mem)) + " count " + std::to_string(static_cast<long>(msg.count()));
+		// (the buffer address of a view without elements designates nothing: not compared)
+		if(head) *head = "msg buf " + (v.num_elements() == 0 ? std::string("_") : std::to_string(static_cast<long>(static_cast<T const*>(msg.buffer()) - g_mem))) + " count " + std::to_string(static_cast<long>(msg.count()));
 	}
 	return out;
 }
@@ -168,6 +169,17 @@ template<multi::dimensionality_type D> void do_msg(VS<D> const& s, long sz) {
 		g_logging = false;
 		// reference: the elements() sequence read through the library's own iterator
 		{ auto&& v = av::mk(s); std::vector<T> ref(v.elements().begin(), v.elements().end()); if(ref != packed) internal("MPI_Pack differs from elements()"); }
+		// canonical form: the stride of an hvector and the extent of the following resized are compared only for levels with
+		// at least two elements of a non-empty view (the stride of a dimension of size 0 or 1 is not determined by the view, cf. C01)
+		{
+			auto&& v = av::mk(s); auto sizes = av::sizes_of(v); bool empty = v.num_elements() == 0;
+			long nhv = 0; bool relevant = true;
+			for(auto& line : g_log) {
+				auto w = av::words(line);
+				if(w[0] == "hv" && w.size() == 6) { long level = static_cast<long>(sizes.size()) - 1 - nhv; ++nhv; relevant = !empty && level >= 0 && sizes[static_cast<std::size_t>(level)] >= 2; if(!relevant) line = "hv " + w[1] + " " + w[2] + " _ " + w[4] + " " + w[5]; }
+				else if(w[0] == "rs" && w.size() == 5) { if(!relevant) line = "rs " + w[1] + " " + w[2] + " _ " + w[4]; }
+			}
+		}
 		std::string calls; for(std::size_t k = 0; k < g_log.size(); ++k) { if(k) calls += " ; "; calls += g_log[k]; }
 		std::string pk = "pack " + std::to_string(packed.size()) + " :"; for(T x : packed) pk += " " + num(x);
 		std::fprintf(fans, "%s | %s | %s | %s\n", head.c_str(), calls.c_str(), ledger_str().c_str(), pk.c_str());
